@@ -153,10 +153,24 @@ package das
 //@   ensures retry.count == lastRetry.count + 1
 
 // A result frees the worker's slot and never creates one.
+// A recent or catch-up job's result: a previously failed height inside the job's range that did not
+// fail again is forgotten, every height that failed (again) is recorded with attempt count one, and
+// failed heights outside the job's range are untouched.
 //@ func (*coordinatorState).handleRecentOrCatchupResult
-//@   property C13
-//@   trusted
+//@   property C13 C04
+//@   requires s != nil && s.failed != nil
 //@   modifies s.failed
+//@   ensures forall h uint64 :: has(res.failed, h) ==> has(s.failed, h) && s.failed[h].count == 1
+//@   ensures forall h uint64 :: old(has(s.failed, h)) && (h < res.from || h > res.to) ==> has(s.failed, h) && (has(res.failed, h) || s.failed[h] == old(s.failed[h]))
+//@   ensures forall h uint64 :: has(s.failed, h) ==> old(has(s.failed, h)) || has(res.failed, h)
+//@   ensures forall h uint64 :: res.from <= h && h <= res.to && !has(res.failed, h) ==> !has(s.failed, h)
+//@   loop 1: invariant forall h uint64 :: seen(1, h) && res.from <= h && h <= res.to && !has(res.failed, h) ==> !has(s.failed, h)
+//@   loop 1: invariant forall h uint64 :: old(has(s.failed, h)) && (h < res.from || h > res.to) ==> has(s.failed, h) && s.failed[h] == old(s.failed[h])
+//@   loop 1: invariant forall h uint64 :: has(s.failed, h) ==> old(has(s.failed, h))
+//@   loop 2: invariant forall h uint64 :: seen(2, h) ==> has(s.failed, h) && s.failed[h].count == 1
+//@   loop 2: invariant forall h uint64 :: old(has(s.failed, h)) && (h < res.from || h > res.to) ==> has(s.failed, h) && (has(res.failed, h) || s.failed[h] == old(s.failed[h]))
+//@   loop 2: invariant forall h uint64 :: has(s.failed, h) ==> old(has(s.failed, h)) || has(res.failed, h)
+//@   loop 2: invariant forall h uint64 :: res.from <= h && h <= res.to && !has(res.failed, h) ==> !has(s.failed, h)
 // A retry job's result: every height that failed again goes back to `failed` with the attempt count it
 // had while in retry plus one (so the count never decreases and the back-off grows), no failed height
 // is lost, and the job's heights leave `inRetry`.
